@@ -13,3 +13,10 @@ mod response;
 #[cfg(test)]
 #[cfg(not(target_arch = "wasm32"))]
 pub mod tests;
+
+/// Verification hooks: re-exports of internal pure functions, compiled only with `--cfg wwcore_verif`.
+#[cfg(wwcore_verif)]
+pub mod verif_hooks {
+    pub use crate::error::ContractError;
+    pub use crate::helpers::*;
+}
